@@ -91,7 +91,7 @@ CONC = {
                 assumptions=['one event loop at a time increments curProcessing: the precondition of the reservation step (nobody else incremented since the guard loaded curProcessing) is validated on every replayed trace, not proved from the goroutine-creation structure',
                              'n < 1 means runtime.NumCPU() (config.go withSafeConcurrency; covered by the lifecycle model C14_tunepool_sets_concurrency)']),
     'C06': dict(module='Properties.C06', file='Properties/C06.v', slices=['disp'],
-                families=['burst', 'lifecycle', 'cancel', 'saturate', 'pool', 'persist'],
+                families=['burst', 'lifecycle', 'cancel', 'saturate', 'pool', 'persist', 'ctlrace'],
                 quick_episodes=250, thorough_episodes=3000,
                 rule=SLICE_DISP_RULE, trusted_base=TB_CONC,
                 assumptions=['"returns once its condition holds" (no missed wake-up) is a progress statement: decided by the exact-quiescence monitor (a barrier caller parked at rest is a violation) and C03',
@@ -231,7 +231,7 @@ CONC = {
                 rule=SLICE_JOB_RULE, trusted_base=TB_CONC,
                 assumptions=['jobs rebuilt by parseToJob from stored entries have no handle; their status word starts from whatever the entry says']),
     'C19': dict(module='Properties.C19', file='Properties/C19.v', slices=['hb', 'lock'],
-                families=['apimix', 'lifecycle', 'burst', 'cancel', 'batch', 'pool', 'persist', 'dist', 'multiq', 'saturate', 'lifeseq', 'recover', 'order'],
+                families=['apimix', 'ctlrace', 'lifecycle', 'burst', 'cancel', 'batch', 'pool', 'persist', 'dist', 'multiq', 'saturate', 'lifeseq', 'recover', 'order'],
                 quick_episodes=250, thorough_episodes=3000, crash_props=['C03'],
                 native=dict(scenarios=['racemix'], rounds=60, thorough_rounds=1500),
                 rule='episodes = scenario programs run under the controlled scheduler on the instrumented library (see C01), plus family apimix (2..3 client goroutines issuing random sequences over the '
